@@ -103,8 +103,16 @@ def _counting_rgi_cls():
     return CountingRGI
 
 
+STUB_TABLE = 0.6 + 0.35 * np.arange(2 * 9, dtype=np.float64).reshape(2, 9) % 1.7   # ratio of the parameter-free factor
+
+
 def build(spec, d, s):
-    """Fresh object graph, trial initialised with data set d for source set s."""
+    """Fresh object graph, trial initialised with data set d for source set s.
+    spec['graph'] == 'i3': the PDFRatioProduct graph around the real SplinedI3EnergySigSetOverBkgPDFRatio (build_i3).
+    spec['product'] in (None, 'first', 'second'): the interpolating ratio is multiplied (PDFRatioProduct) with a
+    parameter-free ratio that hands out its stored array itself, as first / second factor."""
+    if spec.get('graph') == 'i3':
+        return build_i3(spec, d, s)
     from skyllh.core.backgroundpdf import BackgroundMultiDimGridPDF
     from skyllh.core.binning import BinningDefinition
     from skyllh.core.interpolate import (Linear1DGridManifoldInterpolationMethod,
@@ -115,6 +123,7 @@ def build(spec, d, s):
     from skyllh.core.trialdata import TrialDataManager
 
     G = Graph()
+    G.kind = 'grid'
     G.spec = spec
     K = spec['K']
     cfg = fx.make_cfg()
@@ -213,7 +222,12 @@ def build(spec, d, s):
     Y = np.array([[1.0 + 0.25 * k for k in range(K)]])
     (dsy, sdw, dswf) = fx.make_weight_services(shg_mgr, Y)
     G.services = (dsy, sdw, dswf)
-    outer = SourceWeightedPDFRatio(dataset_idx=0, src_detsigyield_weights_service=sdw, pdfratio=inner, cfg=cfg)
+    G.stub = None
+    factor = inner
+    if spec.get('product'):
+        G.stub = fx.StubPDFRatio(cfg, STUB_TABLE[:K], share=True)
+        factor = inner * G.stub if spec['product'] == 'first' else G.stub * inner
+    outer = SourceWeightedPDFRatio(dataset_idx=0, src_detsigyield_weights_service=sdw, pdfratio=factor, cfg=cfg)
     G.outer = outer
     G.events = {}
     G.d = d
@@ -229,6 +243,8 @@ def build(spec, d, s):
 
 def events_of(G, d):
     """a new DataFieldRecordArray per call (as a new pseudo-data trial delivers)"""
+    if G.kind == 'i3':
+        return fx.make_events(len(I3_DATA[d]['log_energy']), **{k: v.copy() for k, v in I3_DATA[d].items()})
     return fx.make_events(len(DATA[d]), x=DATA[d].copy())
 
 
@@ -248,7 +264,8 @@ def op_change_source(G, s):
         src.dec = np.deg2rad(-20.0 + 40.0 * k + 5.0 * s)
     shg_mgr = fx.make_shg_mgr(G.cfg, G.sources)
     G.shg_mgr = shg_mgr
-    G.services[0].change_shg_mgr(shg_mgr)
+    if G.services is not None:
+        G.services[0].change_shg_mgr(shg_mgr)
     G.multi.change_shg_mgr(shg_mgr)
     op_init(G, G.d)
 
@@ -260,6 +277,8 @@ def fitparams(G, ns, xs):
 
 
 def reset_counters(G):
+    if G.kind == 'i3':
+        return
     G.n_manifold_calls = 0
     for pdf in G.sig_pdfs.values():
         pdf._pdf.n_calls = 0
@@ -273,6 +292,9 @@ def op_evaluate(G, ns, xs):
     reset_counters(G)
     fp = fitparams(G, ns, xs)
     (llh, grads) = G.multi.evaluate(fp)
+    if G.kind == 'i3':
+        return dict(llh=float(llh), grads=[float(v) for v in grads], ratio=[], grad=[], other_zero=True,
+                    interp_hit=None, pd_miss=None, bkg_miss=None)
     K = G.spec['K']
     E = G.tdm.n_selected_events
     ratio = G.rec['ratio']
@@ -369,3 +391,133 @@ def field_calc(T, gamma):
     n = T.n_func_calls
     T.tdm.calculate_global_fitparam_data_fields(T.shg_mgr, T.pmm, {'gamma': float(gamma)})
     return [float(v) for v in T.tdm.get_data('gf')], T.n_func_calls > n
+
+
+# ---- PDFRatioProduct around the real splined I3 energy PDF ratio ---------------------------------------
+# SplinedI3EnergySigSetOverBkgPDFRatio keeps (state id, interpolation parameters, ratio, grads) and hands out the
+# cached ratio array and a *view into* the cached gradient array.  The other factor is a parameter-free ratio that
+# hands out its stored per-trial array itself (llh_fixtures.StubPDFRatio(share=True)).  spec = dict(graph='i3', K=1,
+# order='first'|'second' (position of the energy ratio in the product), interp='linear'|'parabola')
+
+def _i3_events(seed, n):
+    rng = np.random.RandomState(seed)
+    sin_dec = rng.uniform(-0.9, 0.9, n)
+    return dict(log_energy=rng.uniform(1.2, 6.8, n), sin_dec=sin_dec, dec=np.arcsin(sin_dec))
+
+
+I3_DATA = {0: _i3_events(100, 6), 1: _i3_events(101, 6), 2: _i3_events(102, 9)}
+
+
+def build_i3(spec, d, s):
+    from skyllh.core.binning import BinningDefinition
+    from skyllh.core.flux_model import PowerLawEnergyFluxProfile, SteadyPointlikeFFM
+    from skyllh.core.interpolate import (Linear1DGridManifoldInterpolationMethod,
+                                         Parabola1DGridManifoldInterpolationMethod)
+    from skyllh.core.parameters import Parameter
+    from skyllh.core.storage import DataFieldRecordArray
+    from skyllh.core.trialdata import TrialDataManager
+    from skyllh.i3.backgroundpdf import DataBackgroundI3EnergyPDF
+    from skyllh.i3.pdfratio import SplinedI3EnergySigSetOverBkgPDFRatio
+    from skyllh.i3.signalpdf import SignalI3EnergyPDFSet
+    G = Graph()
+    G.kind = 'i3'
+    G.spec = spec
+    G.split = False
+    G.services = None
+    cfg = fx.make_cfg()
+    G.cfg = cfg
+    G.sources = make_source_list(dict(K=1), s)
+    G.shg_mgr = fx.make_shg_mgr(cfg, G.sources)
+    gam = Parameter('gamma', 2.0, 1.0, 4.0)
+    G.pmm = fx.make_pmm(G.sources, params=[gam], ns_init=2.0, ns_max=30.0, ns_min=0.0)
+    rng = np.random.RandomState(7)
+    n = 3000
+    lte = rng.uniform(1.5, 7.0, n)
+    mc = DataFieldRecordArray({'true_energy': 10 ** lte,
+                               'log_energy': np.clip(lte - 0.3 + rng.normal(0, 0.4, n), 1.05, 6.95),
+                               'sin_dec': rng.uniform(-1, 1, n), 'mcweight': 10 ** lte * rng.uniform(0.5, 1.5, n)}, copy=True)
+    ne = 600
+    exp = DataFieldRecordArray({'log_energy': np.clip(rng.normal(3.2, 0.9, ne), 1.05, 6.95),
+                                'sin_dec': rng.uniform(-1, 1, ne)}, copy=True)
+    sb = BinningDefinition('sin_dec', np.linspace(-1, 1, 5))
+    eb = BinningDefinition('log_energy', np.linspace(1, 7, 7))
+    flux = SteadyPointlikeFFM(Phi0=1, energy_profile=PowerLawEnergyFluxProfile(E0=1e3, gamma=2, cfg=cfg), cfg=cfg)
+    sigset = SignalI3EnergyPDFSet(cfg=cfg, data_mc=mc, log10_energy_binning=eb, sin_dec_binning=sb, fluxmodel=flux,
+                                  param_grid_set=gam.as_linear_grid(delta=0.1), ncpu=1)
+    bkg = DataBackgroundI3EnergyPDF(cfg=cfg, data_exp=exp, log10_energy_binning=eb, sin_dec_binning=sb)
+    icls = Linear1DGridManifoldInterpolationMethod if spec['interp'] == 'linear' \
+        else Parabola1DGridManifoldInterpolationMethod
+    G.energy = SplinedI3EnergySigSetOverBkgPDFRatio(cfg=cfg, sig_pdf_set=sigset, bkg_pdf=bkg, interpolmethod_cls=icls, ncpu=1)
+    G.stub = fx.StubPDFRatio(cfg, STUB_TABLE[:1], share=True)
+    G.product = G.energy * G.stub if spec['order'] == 'first' else G.stub * G.energy
+    G.tdm = TrialDataManager()
+    G.d = d
+    G.s = s
+    G.tdm.initialize_trial(shg_mgr=G.shg_mgr, pmm=G.pmm, events=events_of(G, d), n_events=N_TOTAL)
+    G.single = fx.make_single_llhratio(cfg, G.pmm, G.shg_mgr, G.tdm, G.product)
+    G.multi = G.single
+    G.multi.initialize_for_new_trial()
+    return G
+
+
+# ---- byte snapshots ------------------------------------------------------------------------------------
+
+def _b(x):
+    if isinstance(x, np.ndarray):
+        return np.ascontiguousarray(x).tobytes()
+    if isinstance(x, dict):
+        return b'|'.join(bytes(str(k), 'ascii') + b'=' + _b(v) for k, v in sorted(x.items()))
+    return repr(x).encode()
+
+
+def const_snapshot(G):
+    """everything that is input to the evaluation and must never be written: spline / grid tables, stub tables"""
+    snap = {}
+    if G.kind == 'i3':
+        for h, spl in G.energy._gridparams_hash_log_ratio_spline_dict.items():
+            snap['spline:%d' % h] = _b(np.asarray(spl.values))
+        snap['stub.R'] = _b(np.asarray(G.stub.R, dtype=np.float64))
+    else:
+        for g, pdf in G.sig_pdfs.items():
+            snap['sig_grid:%r' % g] = _b(np.asarray(pdf._pdf.values))
+        snap['bkg_grid'] = _b(np.asarray(G.bkg._pdf.values))
+        if G.stub is not None:
+            snap['stub.R'] = _b(np.asarray(G.stub.R, dtype=np.float64))
+    return snap
+
+
+def cache_snapshot(G):
+    """the "last evaluation" caches: after evaluate(p) each is a function of (trial data, source, p) alone"""
+    snap = {}
+    if G.kind == 'i3':
+        c = G.energy._cache
+        snap['energy._cache.ratio'] = _b(c['ratio'])
+        snap['energy._cache.grads'] = _b(c['grads'])
+        snap['energy._cache.params'] = _b(c['interpol_params_recarray'])
+        im = G.energy._interpolmethod
+    else:
+        im = G.sigset._interpol_method
+        snap['inner._cache_sig_pd'] = _b(G.inner._cache_sig_pd)
+        snap['inner._cache_bkg_pd'] = _b(G.inner._cache_bkg_pd)
+        snap['inner._cache_sig_grads'] = _b(G.inner._cache_sig_grads)
+        snap['outer._cache_R_i'] = _b(G.outer._cache_R_i)
+        snap['outer._cache_R_ik'] = _b(G.outer._cache_R_ik)
+    for k, v in im._cache.items():
+        if isinstance(v, np.ndarray):
+            snap['interp._cache.' + k] = _b(v)
+    if G.stub is not None:
+        snap['stub._stored'] = _b(G.stub._stored)
+    snap['single._cache_nsgrad_i'] = _b(G.single._cache_nsgrad_i)
+    return snap
+
+
+def pd_cache_snapshot(G):
+    """per grid point: the MultiDimGridPDF pd cache valid for the current state id (None otherwise)"""
+    out = {}
+    if G.kind == 'i3':
+        return out
+    sid = G.tdm.trial_data_state_id
+    for g, pdf in list(G.sig_pdfs.items()) + [('bkg', G.bkg)]:
+        if pdf._cache_pd is not None and pdf._cache_tdm_trial_data_state_id == sid:
+            out[g] = np.array(pdf._cache_pd)
+    return out
